@@ -178,6 +178,7 @@ func Begin(c Config) {
 	aborted = false
 	abortWhy = ""
 	stats = Stats{}
+	seq = 0
 	nrec = 0
 	recMode = c.Record
 	rng = c.RecordSeed
